@@ -56,6 +56,15 @@ func (g *Gen) allModes(op string, x, y d128.Decimal) {
 	}
 }
 
+// allDefaultModes runs the plain (default-mode) form of op under every DefaultRoundingMode
+func (g *Gen) allDefaultModes(op string, x, y d128.Decimal) {
+	for m := 0; m < 6; m++ {
+		g.setMode(m)
+		g.binDefault(op, x, y)
+	}
+	g.setMode(0)
+}
+
 func (g *Gen) someModes(op string, x, y d128.Decimal, k int) {
 	for i := 0; i < k; i++ {
 		g.bin(op, x, y, g.r.Intn(6))
